@@ -1,3 +1,3 @@
 From Coq Require Import ExtrOcamlBasic.
 From OBB Require Import Model.MobAlloc.
-Extraction "model.ml" w_c20_decode w_c20_decode_gnu w_c20_spec.
+Extraction "model.ml" w_c20_decode w_c20_spec.
